@@ -19,9 +19,21 @@ SPEC = {
 R, P = E.R, E.P
 
 
-def perturbations(rng, m, p, other, full):
+def perturbations(rng, m, p, other, full, light=False):
     """yield (class, label, proofhex, ctoks, zs, ys, must_accept)"""
     n = m["n"]
+    if light:
+        # many openings: the honest statement, one wrong value, one opening more / less
+        label, zs, ys = m["label"], list(m["zs"]), list(p["ys"])
+        ctoks = [E.tok(mpgen.point_from_bytes(c)) for c in p["cs"]]
+        yield ("honest (many openings)", label, p["proof"], ctoks, zs, ys, True)
+        i = rng.randrange(n)
+        y2 = list(ys)
+        y2[i] = "%x" % ((int(ys[i], 16) + 1) % R)
+        yield ("y_i + 1 (many openings)", label, p["proof"], ctoks, zs, y2, False)
+        yield ("opening dropped (many openings)", label, p["proof"], ctoks[:-1], zs[:-1], ys[:-1], False)
+        yield ("opening duplicated (many openings)", label, p["proof"], ctoks + ctoks[-1:], zs + zs[-1:], ys + ys[-1:], False)
+        return
     label, zs, ys = m["label"], list(m["zs"]), list(p["ys"])
     pts = [mpgen.point_from_bytes(c) for c in p["cs"]]
     ctoks = [E.tok(q) for q in pts]
@@ -88,6 +100,15 @@ def run(ctx):
     sts = []
     for n in ns:
         sts.append(mpgen.statement(rng, n, max_dense=1))
+    # exactly 256 (and 257) openings at ONE evaluation point (per-point counters, tables indexed by count)
+    for n in ([256, 257] if ctx.quick() else [255, 256, 257, 512]):
+        z = rng.randrange(256)
+        sp, _ = mpgen.poly_spec(rng, "s")
+        sp2, _ = mpgen.poly_spec(rng, "s")
+        ops = ["n %d %s" % (z, sp), "k %d %s" % (z, sp2)] + ["p%d %d %s" % (i % 2, z, (sp, sp2)[i % 2]) for i in range(2, n)]
+        lab = b"many"
+        sts.append(("mpc %s 1 - %s" % (E.hx(lab), " ".join(ops)),
+                    {"n": n, "zpat": "equal-%d" % n, "label": lab, "zs": [z] * n, "light": True}))
     out = run_lines(ctx.harness(), [s[0] for s in sts], shards=2)
     honest = []
     for (l, m), o in zip(sts, out):
@@ -99,7 +120,8 @@ def run(ctx):
     lines, cls, expect = [], [], []
     for k, (m, p) in enumerate(honest):
         other = honest[(k + 1) % len(honest)][1] if len(honest) > 1 else None
-        for (c, label, proof, ctoks, zs, ys, acc) in perturbations(rng, m, p, other, full=(not ctx.quick()) or m["n"] <= 2):
+        for (c, label, proof, ctoks, zs, ys, acc) in perturbations(rng, m, p, other, full=(not ctx.quick()) or m["n"] <= 2,
+                                                                   light=m.get("light", False)):
             lines.append(mpgen.mpv_line(label, proof, ctoks, zs, ys))
             cls.append(c)
             expect.append(acc)
@@ -118,6 +140,22 @@ def run(ctx):
             ctx.violation("valid statement (%s) rejected: %s" % (c, o[:30]), {"case": l, "impl": o, "class": c})
         if (not acc) and ok:
             ctx.violation("perturbed statement (%s) ACCEPTED" % c, {"case": l, "impl": o, "class": c})
+    # the decision is a function of the call's inputs: honest and perturbed statements right after calls that
+    # fail in different places (inside the IPA check, in the shape checks), all in ONE process, in this order
+    hl, hc = [], []
+    hon = [(l, c, a) for l, c, a in zip(lines, cls, expect) if c in ("honest", "re-represented", "y_i + 1", "y_i random")
+           and len(l) < 20000]
+    for (l, c, a) in hon[: (24 if ctx.quick() else 400)]:
+        pre = rng.choice(["mpvs 73 7 7 1 1 1", "mpvs 73 9 9 2 2 2", "mpvs 73 8 7 1 1 1", "mpvs 73 8 8 2 1 2", "mpvs 73 7 7 3 3 3"])
+        hl += [pre, l, l]
+        hc += ["history:failing call", "history:" + c, "history:" + c + " again"]
+    himpl, _ = diff(ctx, hl, "CheckMultiProof after failing calls (one process)", hc, shards=1, impl_shards=1)
+    for l, o, c in zip(hl, himpl, hc):
+        if c.startswith("history:honest") or c.startswith("history:re-represented"):
+            if not o.startswith("true"):
+                ctx.violation("valid statement rejected after a failing call: %s" % o[:30], {"case": l, "impl": o, "class": c, "lines": hl})
+        elif c.startswith("history:y_i") and o.startswith("true"):
+            ctx.violation("false statement ACCEPTED after a failing call", {"case": l, "impl": o, "class": c, "lines": hl})
     # shapes
     sl, sc = [], []
     for (nl, nr, nc, ny, nz) in [(8, 8, 1, 1, 1), (0, 0, 1, 1, 1), (7, 7, 1, 1, 1), (9, 9, 1, 1, 1), (8, 7, 1, 1, 1), (7, 8, 1, 1, 1),
